@@ -129,6 +129,10 @@ impl World {
     }
     /// hand one PDU to daemon `d` (0/1): one FWD event
     async fn forward(&mut self, d: usize, pdu: PDU, out: &mut impl Write, ev: &mut impl Write) {
+        self.forward_opt(d, pdu, true, out, ev).await
+    }
+    /// `settle = false`: the daemon handles the next PDU before any transaction task gets to run (a burst)
+    async fn forward_opt(&mut self, d: usize, pdu: PDU, settle_after: bool, out: &mut impl Write, ev: &mut impl Write) {
         let key = TransactionID(pdu.header.source_entity_id, pdu.header.transaction_sequence_number);
         let closed = self.nodes[d].d.verif_table().iter().find(|(id, _)| *id == key).map_or(false, |x| x.1);
         writeln!(
@@ -144,7 +148,9 @@ impl World {
         .unwrap();
         self.nodes[d].delivered.push(pdu.clone());
         let r = self.nodes[d].d.verif_forward_pdu(pdu).await;
-        settle().await;
+        if settle_after {
+            settle().await;
+        }
         self.drain_inds().await;
         writeln!(out, "{}", self.obs(res_class(&r), None)).unwrap();
     }
@@ -333,6 +339,20 @@ pub fn run(ops: &str, out: &mut impl Write, orc: &mut impl Write, ev: &mut impl 
                             }
                         }
                     }
+                    "BURST" => {
+                        // n PDUs handed to the peer daemon back to back: the receiving transaction's task
+                        // does not run in between unless the daemon itself has to wait for it
+                        let d = dn(t[1]);
+                        let n: usize = t[2].parse().unwrap();
+                        for _ in 0..n {
+                            let p = world.nodes[d].outbox.lock().unwrap().pop_front();
+                            match p {
+                                Some((_dest, pdu)) => world.forward_opt(1 - d, pdu, false, out, ev).await,
+                                None => break,
+                            }
+                        }
+                        settle().await;
+                    }
                     "DUPX" => {
                         let d = dn(t[1]);
                         let p = world.nodes[d].outbox.lock().unwrap().front().cloned();
@@ -471,13 +491,14 @@ pub fn gen(seed: u64, tier: &str, w: &mut impl Write, stats: &mut Stats) {
     let n = if tier == "thorough" { 3_000 } else { 250 };
     for i in 0..n {
         let (sub, mut r) = rng.fork();
-        let kind = r.below(10); // 0..=5 clean concurrency + strays, 6..=7 lossy, 8 user commands, 9 id wrap-around
+        let kind = r.below(11); // 0..=5 clean concurrency + strays, 6..=7 lossy, 8 user commands, 9 id wrap-around, 10 bursts
         let idw = if kind == 9 { 1 } else { *r.pick(&[1u64, 2]) };
         let (s1, s2) = if kind == 9 { (250 + r.below(6), 240 + r.below(16)) } else { (r.below(180), r.below(180)) };
         let acked_default = r.chance(2, 3);
         let seg = *r.pick(&[16u64, 32, 48]);
-        let flen = *r.pick(&[0u64, 1, seg - 1, seg, 2 * seg + 3, 5 * seg]);
-        let clean = kind <= 5 || kind == 9;
+        let seg = if kind == 10 { 16 } else { seg };
+        let flen = if kind == 10 { 16 * (105 + r.below(60)) } else { *r.pick(&[0u64, 1, seg - 1, seg, 2 * seg + 3, 5 * seg]) };
+        let clean = kind <= 5 || kind >= 9;
         let ends = kind != 8;
         writeln!(
             w,
@@ -499,9 +520,32 @@ pub fn gen(seed: u64, tier: &str, w: &mut impl Write, stats: &mut Stats) {
             0..=5 => "script_concurrent_clean",
             6 | 7 => "script_lossy",
             8 => "script_user_commands",
-            _ => "script_id_wrap",
+            9 => "script_id_wrap",
+            _ => "script_burst",
         });
         let mut ops: Vec<String> = Vec::new();
+        if kind == 10 {
+            // long files (more PDUs than a transaction's command channel holds) delivered in bursts
+            let np = 1 + r.below(3);
+            for _ in 0..np {
+                ops.push(format!("PUT {} {} {}", 1 + r.below(2), r.below(6), r.pick(&["A", "U"])));
+            }
+            for _ in 0..(6 + r.below(10)) {
+                match r.below(6) {
+                    0 => ops.push("SETTLE".into()),
+                    1 => ops.push(format!("XFER {} {}", 1 + r.below(2), 1 + r.below(6))),
+                    _ => ops.push(format!("BURST {} {}", 1 + r.below(2), 50 + r.below(250))),
+                }
+            }
+            ops.push("RUNALL 400".into());
+            ops.push(format!("PUT {} {} A", 1 + r.below(2), r.below(6)));
+            ops.push("RUNALL 400".into());
+            stats.add("ops", ops.len() as u64);
+            for o in ops {
+                writeln!(w, "{o}").unwrap();
+            }
+            continue;
+        }
         let nput = if kind == 9 { 8 + r.below(10) } else { 2 + r.below(12) };
         let mut puts_done = 0u64;
         let steps = nput * 3 + r.below(30);
